@@ -50,10 +50,13 @@ pub struct ReentStats {
     pub nested_pass: u64,
     pub nested_wrong: u64,
     pub borrow_busy: u64,
+    pub debug_format: u64,
 }
 
 /// State reachable from inside user closures (through a `Weak`, so that graphs do not keep it alive).
 pub struct Shared {
+    /// the library's activation closures, created once per world (a program keeps them around)
+    pub acts: [corgi::activation::Activation; 3],
     pub slots: RefCell<Vec<Option<Array>>>,
     pub log: RefCell<Vec<Invocation>>,
     pub seq: Cell<u64>,
@@ -63,6 +66,7 @@ pub struct Shared {
 impl Shared {
     pub fn new() -> Rc<Shared> {
         Rc::new(Shared {
+            acts: [corgi::activation::relu(), corgi::activation::sigmoid(), corgi::activation::softmax()],
             slots: RefCell::new(Vec::new()),
             log: RefCell::new(Vec::new()),
             seq: Cell::new(0),
@@ -108,6 +112,16 @@ fn run_script(sh: &Shared, script: &[Reent], children: &[Array], delta: &Array) 
                 }
                 Err(_) => sh.reent.borrow_mut().borrow_busy += 1,
             },
+            Reent::DebugFormat => {
+                let mut n = 0usize;
+                for c in children {
+                    n += format!("{:?}", c).len();
+                }
+                n += format!("{:?}", delta).len();
+                if n > 0 {
+                    sh.reent.borrow_mut().debug_format += 1;
+                }
+            }
             Reent::NestedPass => {
                 let x = mk(&[2], &[3.0, -2.0]).tracked();
                 let w = mk(&[2], &[5.0, 7.0]).tracked();
@@ -244,9 +258,9 @@ pub fn apply_op(sh: &Rc<Shared>, uid: usize, op: &Op, a: &[&Array], any_tracked:
             let c = if *detach { c.untracked() } else { c };
             match act {
                 crate::event::Act::None => c,
-                crate::event::Act::Relu => (corgi::activation::relu())(c),
-                crate::event::Act::Sigmoid => (corgi::activation::sigmoid())(c),
-                crate::event::Act::Softmax => (corgi::activation::softmax())(c),
+                crate::event::Act::Relu => (sh.acts[0])(c),
+                crate::event::Act::Sigmoid => (sh.acts[1])(c),
+                crate::event::Act::Softmax => (sh.acts[2])(c),
             }
         }
         Op::Stack { views } => {
